@@ -38,6 +38,13 @@
 #include <cpuid.h>
 #endif
 
+#if defined(RWEATHER_SKINNY_C_VERIF)
+/* Verification hook: caps the back end that the probes below may report.
+   0 = generic only, 1 = up to 128-bit SIMD, 2 = no cap.  It can only
+   lower the result of the real probe, never raise it. */
+int _skinny_verif_backend_cap = 2;
+#endif
+
 int _skinny_has_vec128(void)
 {
     int detected = 0;
@@ -58,6 +65,10 @@ int _skinny_has_vec128(void)
 #endif
 #endif
 #endif
+#if defined(RWEATHER_SKINNY_C_VERIF)
+    if (_skinny_verif_backend_cap < 1)
+        detected = 0;
+#endif
     return detected;
 }
 
@@ -74,6 +85,10 @@ int _skinny_has_vec256(void)
     __cpuid(7, eax, ebx, ecx, edx);
     detected = (ebx & (1 << 5)) != 0;
 #endif
+#endif
+#if defined(RWEATHER_SKINNY_C_VERIF)
+    if (_skinny_verif_backend_cap < 2)
+        detected = 0;
 #endif
     return detected;
 }
